@@ -9,6 +9,14 @@
   which case nothing is attempted any more. Together with the order invariant (`Core`: everything
   attempted ≤ everything pending) this gives: the set of attempted request indices is downward closed
   among the accepted requests that are not QoS 0 publishes (`no_skip`).
+
+  Everything here holds for every configuration, a dialer that ignores its context (`Cfg.deafDialer`) included:
+  the one new place where the task goroutine gets a turn (`.dialOk` after the cancellation of the first Connect,
+  `C03.dialDead`) is covered by `preProgress` / `step_pre` / `step_stuck`.
+
+  Of `RetryLoop.lean` only the step-independent frame of the task goroutine is used (`frame_runTasks`,
+  `frame_deliverInbound`, `frame_foldl_deliverInbound`, `Frame.stopped`, `loopReact_stopped`), for "only Disconnect
+  stops the client" (`step_stopped_other`).
 -/
 import MqttVerif.Proofs.RetryOrder
 import MqttVerif.Proofs.RetryLoop
@@ -496,7 +504,9 @@ theorem step_stuck (w : World) (e : Ev) :
     · simp only [step]
       split
       · rfl
-      · split <;> rfl
+      · split
+        · split <;> rfl
+        · rfl
     · cases h
   | app r =>
     by_cases hs : w.stopped = true
@@ -510,16 +520,39 @@ theorem step_stuck (w : World) (e : Ev) :
         refine ⟨rfl, ?_⟩
         simp only [step, hs, Bool.false_eq_true, if_false]
   | dialOk idStart =>
-    refine ⟨fun _ => ?_, fun w1 h => ?_⟩
-    · simp only [step]
-      split <;> rfl
-    · cases h
+    by_cases hph : w.phase = .dialGate
+    · by_cases hc : w.ctxCancelled = true ∧ w.connectReturned.isNone = true
+      · -- (deaf dialer) the dead connection of a cancelled first Connect: the task goroutine gets a turn
+        refine ⟨fun h => ?_, fun w1 h => ?_⟩
+        · simp only [preProgress, hph, ne_eq, not_true_eq_false, if_false] at h
+          rw [if_pos hc] at h
+          cases h
+        · simp only [preProgress, hph, ne_eq, not_true_eq_false, if_false] at h
+          rw [if_pos hc] at h
+          simp only [Option.some.injEq] at h
+          subst h
+          refine ⟨rfl, ?_⟩
+          simp only [step, hph, ne_eq, not_true_eq_false, if_false]
+          rw [if_pos hc]
+          rfl
+      · refine ⟨fun _ => ?_, fun w1 h => ?_⟩
+        · simp only [step, hph, ne_eq, not_true_eq_false, if_false]
+          rw [if_neg hc]
+        · simp only [preProgress, hph, ne_eq, not_true_eq_false, if_false] at h
+          rw [if_neg hc] at h
+          cases h
+    · refine ⟨fun _ => ?_, fun w1 h => ?_⟩
+      · simp only [step, hph, ne_eq, not_false_eq_true, if_true]
+      · simp only [preProgress, hph, ne_eq, not_false_eq_true, if_true] at h
+        cases h
   | dialFail =>
     refine ⟨fun _ => ?_, fun w1 h => ?_⟩
     · simp only [step]
       split
       · rfl
-      · split <;> rfl
+      · split
+        · rfl
+        · split <;> rfl
     · cases h
   | waitElapsed =>
     refine ⟨fun _ => ?_, fun w1 h => ?_⟩
@@ -566,6 +599,7 @@ theorem step_stuck (w : World) (e : Ev) :
       | dialGate =>
         refine ⟨fun _ => ?_, fun w1 h => ?_⟩
         · simp only [step, hc, hph, if_false]
+          split <;> rfl
         · simp only [preProgress, hc, hph, if_false] at h
           cases h
       | up k =>
@@ -842,22 +876,109 @@ theorem no_skip (s : Script) (i j : Nat) (hj : j ∈ apps (gExec s).out) (hi : O
 
 /-! ### the accepted requests, read off the script: those submitted before the first Disconnect -/
 
-theorem shape_stopped {w w' : World} {e : Ev} (h : Shape w e w') (he : e ≠ .disconnect) :
-    w'.stopped = w.stopped := by
-  cases h with
-  | disc => exact absurd rfl he
-  | frame ev w' h ha => exact h.stopped
-  | react ev w1 h => exact (loopReact_stopped w1).trans h.stopped
-  | connOk sp inb k hp hs0 w1 hc hph hw he' hd hs hx => exact (loopReact_stopped w1).trans hs
-  | _ => first | rfl | assumption
+theorem progress_stopped (w : World) : (progress w).stopped = w.stopped :=
+  (loopReact_stopped _).trans (frame_runTasks _ w).stopped
 
-theorem step_stopped_other (w : World) (e : Ev) (he : e ≠ .disconnect) : (step w e).stopped = w.stopped :=
-  shape_stopped (step_shape w e) he
+theorem connackMid_stopped (w : World) (sp : Bool) (inbound : List (Nat × Nat)) (k : Nat) :
+    (C03.connackMid w sp inbound k).stopped = w.stopped := by
+  unfold C03.connackMid
+  exact (frame_foldl_deliverInbound k inbound _).stopped.trans (by simp [setConn])
+
+theorem connackPre_stopped (w : World) (sp : Bool) (k : Nat) : (connackPre w sp k).stopped = w.stopped := by
+  unfold connackPre
+  simp only
+  split <;> split <;> rfl
+
+theorem connectFailed_stopped_eq (w : World) (k : Nat) : (connectFailed w k).stopped = w.stopped := by
+  unfold connectFailed
+  simp only
+  split <;> rfl
+
+/-- only Disconnect stops the client (directly from `step`; of `RetryLoop.lean` only the frame of the task
+    goroutine, `frame_runTasks`, and `loopReact_stopped` are used) -/
+theorem step_stopped_other (w : World) (e : Ev) (he : e ≠ .disconnect) : (step w e).stopped = w.stopped := by
+  cases e with
+  | disconnect => exact absurd rfl he
+  | start =>
+    simp only [step]
+    split
+    · rfl
+    · split
+      · split <;> rfl
+      · rfl
+  | app r =>
+    simp only [step]
+    split
+    · rfl
+    · exact progress_stopped _
+  | dialOk idStart =>
+    simp only [step]
+    split
+    · rfl
+    · split
+      · exact progress_stopped _
+      · rfl
+  | dialFail =>
+    simp only [step]
+    split
+    · rfl
+    · split
+      · rfl
+      · split <;> rfl
+  | waitElapsed =>
+    simp only [step]
+    split <;> rfl
+  | cancelCtx =>
+    simp only [step]
+    split
+    · rfl
+    · split
+      · rfl
+      · rfl
+      · split <;> rfl
+      · exact progress_stopped _
+      · rfl
+      · rfl
+  | connackOk sp inbound =>
+    cases hph : w.phase with
+    | connackGate k =>
+      have hst : step w (.connackOk sp inbound) = progress (connackPre (C03.connackMid w sp inbound k) sp k) := by
+        simp only [step, hph]; rfl
+      rw [hst, progress_stopped, connackPre_stopped, connackMid_stopped]
+    | _ => simp only [step, hph]
+  | connackRefused =>
+    simp only [step]
+    split
+    · exact (progress_stopped _).trans (connectFailed_stopped_eq w _)
+    · rfl
+  | connackNever =>
+    simp only [step]
+    split
+    · split
+      · exact (progress_stopped _).trans (connectFailed_stopped_eq w _)
+      · rfl
+    · rfl
+  | peerClose =>
+    simp only [step]
+    split
+    · exact progress_stopped _
+    · rfl
+  | inbound m qos =>
+    simp only [step]
+    split
+    · exact (frame_deliverInbound w _ m qos).stopped
+    · rfl
+  | handle hd =>
+    simp only [step]
+    split <;> rfl
 
 theorem step_stopped_disconnect (w : World) : (step w .disconnect).stopped = true := by
-  cases hs : w.stopped with
-  | false => exact (disconnect_spec w hs).1
-  | true => simp only [step, hs, if_true]
+  simp only [step]
+  split
+  · rename_i hs; exact hs
+  · have h1 : (progress { pushTask w .disconnect with stopped := true }).stopped = true := progress_stopped _
+    generalize progress { pushTask w .disconnect with stopped := true } = w2 at h1
+    split <;> exact h1
 
 theorem step_stopped_keep (w : World) (e : Ev) (h : w.stopped = true) : (step w e).stopped = true := by
   by_cases he : e = .disconnect
